@@ -723,6 +723,22 @@ func RunCrashScenario(sc *Scenario) (vd *Verdict) {
 			// a batch the store is free to refuse (too large for one transaction, or carrying an entity it must refuse):
 			// like an injected failure, it must then be entirely absent
 			r.Stats["oversized_batches_refused"]++
+			if op.M["wide"] == true {
+				// ... nor may it leave index entries behind: nothing refers to the targets of its wide reference
+				for _, k := range []int{0, 1, 999, 1000, 1001, 1199} {
+					t := r.H.curie(fmt.Sprintf("%swt%04d", ExE, k))
+					from, err := r.H.Store.ToRelatedFrom([]string{t}, "*", true, nil, time.Now().UnixNano())
+					if err != nil || len(from) == 0 || from[0] == nil {
+						continue
+					}
+					res, err := r.H.Store.GetManyRelatedEntitiesAtTime(from, 0, true)
+					if err == nil && len(res.Relations) > 0 {
+						fail(viol(sc.Property, "failed-write-visible", "refused-transaction-left-index-entries", "a transaction that was refused as a whole left relationship index entries behind: an incoming query for %s returns %d relation(s)", shortURI(r.H.expand(t)), len(res.Relations)), i)
+						return
+					}
+				}
+				r.Stats["refused_wide_transactions"]++
+			}
 		} else if werr != nil && !errors.Is(werr, errInjected) {
 			fail(viol(sc.Property, "write", "write-rejected", "op %d (%s) failed: %v", i, op.K, werr), i)
 			return
